@@ -64,6 +64,26 @@ def tupletLoop (s qdur tol : Rat) : Nat → Nat → Option (Nat × Int)
 /-- fuel that always suffices for an integer duration: `normal_notes = 64·dur` makes the ratio an integer -/
 def tupletFuel (dur : Rat) : Nat := 64 * dur.ceil.toNat + 2
 
+/-- the tuplet branch: the straight value at or above `qdur`, the guessed ratio -/
+def tupletGuess (dur qdur tol : Rat) : Option Est :=
+  let k := searchsortedLeft STRAIGHT_DURS qdur
+  match STRAIGHT_DURS[k]?, SYM_STRAIGHT_DURS[k]? with
+  | some s, some ss =>
+    match tupletLoop s qdur tol (tupletFuel dur) 2 with
+    | some (n, a) => if a < 0 then none else some (.single (ss.1, 0, some a.toNat, some n))
+    | none => none
+  | _, _ => none
+
+/-- the branches after the table of single values did not match -/
+def estimateRest (dur qdur tol : Rat) (com : Bool) : Option Est :=
+  let j := findNearest COMPOSITE_DURS qdur
+  match COMPOSITE_DURS[j]?, SYM_COMPOSITE_DURS[j]? with
+  | some c, some sc =>
+    if absR (qdur - c) < tol then some (if com then .composite sc else .empty)
+    else if qdur > 4 then some .empty
+    else tupletGuess dur qdur tol
+  | _, _ => none
+
 /-- `estimate_symbolic_duration(dur, div, return_com_durations=com)` (repaired).
     `none`: outside the modelled domain (`div = 0` raises; negative durations; tuplet loop out of fuel,
     which cannot happen for integer durations) -/
@@ -78,22 +98,7 @@ def estimate (dur : Rat) (div : Nat) (com : Bool) : Option Est :=
       let i := findNearest DURS qdur
       match DURS[i]?, SYM_DURS[i]? with
       | some d, some sd =>
-        if absR (qdur - d) < tol then some (.single sd)
-        else
-          let j := findNearest COMPOSITE_DURS qdur
-          match COMPOSITE_DURS[j]?, SYM_COMPOSITE_DURS[j]? with
-          | some c, some sc =>
-            if absR (qdur - c) < tol then some (if com then .composite sc else .empty)
-            else if qdur > 4 then some .empty
-            else
-              let k := searchsortedLeft STRAIGHT_DURS qdur
-              match STRAIGHT_DURS[k]?, SYM_STRAIGHT_DURS[k]? with
-              | some s, some ss =>
-                match tupletLoop s qdur tol (tupletFuel dur) 2 with
-                | some (n, a) => if a < 0 then none else some (.single (ss.1, 0, some a.toNat, some n))
-                | none => none
-              | _, _ => none
-          | _, _ => none
+        if absR (qdur - d) < tol then some (.single sd) else estimateRest dur qdur tol com
       | _, _ => none
 
 /-- `symbolic_to_numeric_duration` of an estimate (sum of the parts of a composite one) -/
